@@ -46,6 +46,12 @@ def template(B, kind):
         return B.Strategy('tpl', [A.RunDaily(), A.SelectAll(), A.SetStat('rating'), A.SelectN(1), A.WeighEqually(), A.Rebalance()], ['a', 'b', 'c'])
     if kind == 'ties_filter':
         return B.Strategy('tpl', [A.RunDaily(), A.SelectAll(), A.SetStat('rating'), A.SelectN(2, filter_selected=True), A.WeighEqually(), A.Rebalance()])
+    if kind == 'active':
+        return B.Strategy('tpl', [A.ClosePositionsAfterDates('cd'), A.RunDaily(), A.SelectAll(), A.SelectActive(), A.SetStat('rating'), A.SelectN(1), A.WeighEqually(),
+                                  A.Rebalance()], [C.Security('a'), C.Security('b'), C.Security('c')])
+    if kind == 'active_random':
+        return B.Strategy('tpl', [A.ClosePositionsAfterDates('cd'), A.RunDaily(), A.SelectAll(), A.SelectActive(), A.SelectRandomly(1), A.WeighEqually(), A.Rebalance()],
+                          [C.Security('a'), C.Security('b'), C.Security('c')])
     if kind == 'random':
         return B.Strategy('tpl', [A.RunDaily(), A.RunOnce(), A.SelectAll(), A.SelectRandomly(2), A.WeighEqually(), A.Rebalance()], ['a', 'b', 'c'])
     raise ValueError(kind)
@@ -86,7 +92,10 @@ def snapshot(obj, depth=0, seen=None):
 
 
 def cells(df):
-    return [(i, c, id(df[c][i]) if not isinstance(df[c][i], float) else df[c][i]) for i in df.index for c in df.columns]
+    def key(v):
+        # symbolic cells by identity (terms are immutable objects), everything else by value
+        return ('sym', id(v)) if type(v).__module__.startswith('symbt') else v
+    return [(i, c, key(df[c][i])) for i in df.index for c in df.columns]
 
 
 def same_cells(a, b):
@@ -166,6 +175,9 @@ def mkdata(run, cfg, tag):
     dts = dates(4)
     data = frame(run, dts, ['a', 'b', 'c'], lambda i, c: run.real('%s_p3%s' % (tag, c), 1, 300) if (i == 3 and cfg.get('symlast', 1)) else PR[c][i] * (1.0 if tag == 'A' else 1.25))
     add = {}
+    if cfg['kind'] in ('active', 'active_random'):
+        add['cd'] = pd.DataFrame({'date': [dts[1]]}, index=['c'])
+        add['rating'] = frame(run, dts, ['a', 'b', 'c'], lambda i, c: {'a': 2.0, 'b': 2.0, 'c': 3.0}[c])
     if cfg['kind'].startswith('ties'):
         add['rating'] = frame(run, dts, ['a', 'b', 'c'], lambda i, c: {'a': 2.0, 'b': 2.0, 'c': 1.0 + (i % 2)}[c])      # exact ties between a and b
     return dts, data, add
@@ -291,6 +303,15 @@ def perm_set_class(run, tagbox):
                         out.append(x)
             return PermSet(out)
 
+        def difference(self, *others):
+            return PermSet([x for x in self._l if not any(x in o for o in others)])
+
+        def __sub__(self, o):
+            return self.difference(o)
+
+        def copy(self):
+            return PermSet(self._l)
+
         __or__ = lambda s, o: s.union(o)
         __and__ = lambda s, o: s.intersection(o)
     return PermSet
@@ -308,13 +329,22 @@ def h_hashseed(run, cfg):
     old_c, old_a = B.core.__dict__.get('set'), B.algos.__dict__.get('set')
     B.core.set = PS
     B.algos.set = PS
+    import ffn.core as fc
+    old_r, old_ar = fc.random, B.algos.random
+    stream = {}
+    if 'random' in kind:
+        fc.random = RandShim(run, stream)          # one fixed RNG stream, seen from its start by both runs
+        B.algos.random = fc.random
     try:
         for r in range(2):
             box['tag'], box['k'] = 'r%d' % r, 0
+            if 'random' in kind:
+                fc.random.k = 0
             t = B.Backtest(template(B, kind), data, initial_capital=cap, integer_positions=False, additional_data=add or None)
             t.run()
             hs.append(history(t))
     finally:
+        fc.random, B.algos.random = old_r, old_ar
         for mod, old in ((B.core, old_c), (B.algos, old_a)):
             if old is None:
                 del mod.set
@@ -381,6 +411,7 @@ def plan(tier):
         if not quick:
             tasks.append(dict(harness='isolation', cfg=dict(kind=kind, symlast=0, fee=1, int=1, cap=123456.0), opts=opts))
     tasks.append(dict(harness='isolation', cfg=dict(kind='stateful', symlast=0, fee=1), opts=opts))
-    for kind in ('ties', 'ties_filter', 'stateful'):
+    for kind in ('ties', 'ties_filter', 'stateful', 'active', 'active_random'):
         tasks.append(dict(harness='hashseed', cfg=dict(kind=kind), opts=opts))
+    tasks.append(dict(harness='isolation', cfg=dict(kind='active', symlast=0), opts=opts))
     return tasks
